@@ -49,3 +49,8 @@ package utils
 //@   ensures len: len(result) == size
 //@   ensures fresh: fresh(result)
 //@   ensures C07.prefix: forall(k, 0, size, result[k] == ite(k < len(text), text[k], 0))
+
+// Time2BCD walks the (even-length) digit string two characters at a time
+//@ func Time2BCD
+//@   loop 1 invariant even: 0 <= i && i % 2 == 0 && len(time) % 2 == 0
+//@   loop 1 decreases len(time) - i
